@@ -222,15 +222,55 @@ func constSet(v ssa.Value, depth int) []string {
 		if u != v {
 			return constSet(u, depth+1)
 		}
+		if out := tableConstSet(v, depth); out != nil {
+			return out
+		}
 	case *ssa.Extract:
 		// a result of a helper of the module: the constants its returns can carry
 		if call, ok := x.Tuple.(*ssa.Call); ok {
 			return calleeConstSet(call, x.Index, depth)
 		}
+		if out := tableConstSet(v, depth); out != nil {
+			return out
+		}
+	case *ssa.Field, *ssa.Lookup:
+		if out := tableConstSet(v, depth); out != nil {
+			return out
+		}
 	case *ssa.Call:
 		return calleeConstSet(x, 0, depth)
 	}
 	return []string{"?"}
+}
+
+// tableConstSet: v reads a read-only table (possibly one field of a struct entry): the constants of all entries.
+func tableConstSet(v ssa.Value, depth int) []string {
+	if curProgram == nil {
+		return nil
+	}
+	tab, _, isOK, field := tableLookup(curProgram, v)
+	if tab == nil || isOK {
+		return nil
+	}
+	set := map[string]bool{}
+	for _, e := range tab.entries {
+		val := e.val
+		if field != "" {
+			val = e.fields[field]
+		}
+		if val == nil {
+			return nil
+		}
+		for _, s := range constSet(val, depth+1) {
+			set[s] = true
+		}
+	}
+	var out []string
+	for s := range set {
+		out = append(out, s)
+	}
+	sort.Strings(out)
+	return out
 }
 
 func calleeConstSet(call *ssa.Call, idx int, depth int) []string {
@@ -1356,6 +1396,29 @@ func kindDisjunction(f *ssa.Function) []string {
 			}
 		}
 	})
+	// the same predicate as a lookup in a read-only table keyed by the Kind: the keys whose (field) value is true
+	if len(set) == 0 && curProgram != nil {
+		for _, ret := range returnsOf(f) {
+			if len(ret.Results) != 1 {
+				continue
+			}
+			tab, idx, isOK, field := tableLookup(curProgram, ret.Results[0])
+			if tab == nil || isOK || !loadOfField(stripChange(idx), "Definition", "Kind") {
+				continue
+			}
+			for _, e := range tab.entries {
+				val := e.val
+				if field != "" {
+					val = e.fields[field]
+				}
+				if cst, ok := val.(*ssa.Const); ok && cst.Value != nil && cst.Value.Kind() == constant.Bool && constant.BoolVal(cst.Value) {
+					if e.key.Kind() == constant.String {
+						set[constant.StringVal(e.key)] = true
+					}
+				}
+			}
+		}
+	}
 	var out []string
 	for s := range set {
 		out = append(out, s)
